@@ -34,6 +34,21 @@ CHECKS = {
                      "(CrashTrace.tla) checks each distinct outcome: opened, contents = a witness set of whole batches in order containing "
                      "every sync-acknowledged batch; recovered DBs then run a KV-contract program.",
                 tech="TLA+ durability spec + exhaustive crash-point enumeration on the real code judged by TLC"),
+    "C06": dict(cat="model_checking", ref="5 C06",
+                text="LSM.tla (flush, compaction with level-0 closure / next-level overlap / drop rule / output cuts, snapshots) is "
+                     "model-checked: the C06 laws of LSMLaws.tla (disjoint ordered levels, no empty file, recency across levels) and ReadOK "
+                     "hold in every reachable state. The same laws are evaluated by TLC (LSMTrace.tla) on EVERY version the real DB "
+                     "installs (hook in session.setVersion, under its mutex) in seeded programs with flushes, all compaction kinds, "
+                     "transactions and reopen: each new file exists with its recorded size, its entries (read back from the file) are "
+                     "strictly ordered, recorded bounds = first/last entry, levels below 0 ordered and disjoint, shallower entries newer.",
+                tech="TLA+ LSM design spec + shared laws evaluated by TLC on every version installation recorded from the real DB"),
+    "C07": dict(cat="model_checking", ref="5 C07",
+                text="LSMTrace.tla monitors on hook-level traces of the real DB: a table file is never removed from storage while the current "
+                     "version or a version the reference loop still holds as referenced names it; iterators and snapshots held across "
+                     "compactions keep validating against KV.tla; at settle points (readers released, background work drained, reference "
+                     "loop synchronised) and after reopen the storage listing equals live tables + live journal + live manifest; after "
+                     "delete-all + full compaction table bytes fall below a bound.",
+                tech="TLA+ monitors over reference/removal/settle events recorded from the real DB (TLC trace validation)"),
     "C08": dict(cat="fault_enumeration", ref="5 C08",
                 text="KV.tla's failed-write semantics (a write that returned an error is applied now, or in limbo until a reopen decides, "
                      "atomically) and Durable.tla with a failing journal Sync are model-checked. A fault-free reference run yields the "
